@@ -1596,10 +1596,20 @@ func runC06Widen(c *Ctx) {
 			n++
 			construct := fmt.Sprintf("(*RuleExpression).checkMatrix|include element of unknown type#%d", n)
 			widened := false
-			eachInstr(fn, func(_ *ssa.BasicBlock, _ int, in ssa.Instruction) {
-				if isAnyStore(in) && instrReachableAfter(call, in) {
-					widened = true
+			eachInstr(fn, func(b *ssa.BasicBlock, _ int, in ssa.Instruction) {
+				if !isAnyStore(in) || !instrReachableAfter(call, in) {
+					return
 				}
+				// a store that is guarded by a boolean variable only counts when that variable is true on every path
+				// from the opening of the object to the guard
+				for ifi, outcome := range controllingConds(b) {
+					if _, isPhi := ifi.Cond.(*ssa.Phi); isPhi && isBoolType(ifi.Cond.Type()) {
+						if !outcome || !flagTrueFrom(call.Block(), ifi) {
+							return
+						}
+					}
+				}
+				widened = true
 			})
 			if widened {
 				c.ok(construct, call.Pos(), "after the object was opened the property types are replaced by any")
